@@ -3,6 +3,7 @@ from .. import ast as A
 from .. import opcodes as O
 from .. import terms as T
 from .. import vmloops as V
+from .. import allocproto as AP
 
 SSA = "fidget-core/src/compiler/ssa_tape.rs"
 CTXMOD = "fidget-core/src/context/mod.rs"
@@ -223,5 +224,11 @@ def r3_interpreters(rule, root=None):
 def run(ctx):
     r = ctx.rule("R1", "SsaTape::new lowers each graph opcode to its namesake SsaOp form", 12 * 3 + 18 + 4 + 1)
     ctx.guarded(r, r1_ssa_lowering)
+    r = ctx.rule("R2", "allocator lowering tables map SsaOp::V to RegOp::V and the router agrees", 49 + 52 + 2)
+    ctx.guarded(r, AP.r2_lowering_tables)
+    r = ctx.rule("R4", "allocator arms follow the load/store/bind protocol of their case", 3 + 11 + 3 + 3 + 1)
+    ctx.guarded(r, AP.r4_protocol)
+    r = ctx.rule("R5", "allocator helpers have their summarised effects", 18)
+    ctx.guarded(r, AP.r5_helpers)
     r = ctx.rule("R3", "every interpreter arm and the reference eval compute the arm's opcode", 4 * 54 + 30)
     ctx.guarded(r, r3_interpreters)
